@@ -49,7 +49,7 @@ FUNCTIONS = [
     "autoarray.dataset.imaging.dataset.Imaging.w_tilde",
     "autoarray.dataset.imaging.dataset.Imaging.convolver",
 ]
-EXPLORER_OPTS = {"timeout_ms": 20000, "max_paths": 20000, "max_candidates": 3}
+EXPLORER_OPTS = {"timeout_ms": 120000, "max_paths": 20000, "max_candidates": 3}   # generous solver timeout: the host is shared and heavily loaded
 BUDGET_S = {"quick": 900, "thorough": 2300}
 
 
@@ -213,6 +213,16 @@ def base_key(k):
     return k.split("[")[0]
 
 
+def stop_if_enough(ctx):
+    """a case that already holds max_candidates unexplained counterexamples stops exploring further paths
+    (a seeded value-dependent branch otherwise multiplies the paths without adding information)"""
+    from symx.explore import PathAbort
+    if sum(1 for c in ctx.stats.candidates if c.known is None) >= ctx.max_candidates:
+        for e in ctx.stack:
+            e[1] = False
+        raise PathAbort()
+
+
 def known_ids():
     return [k for k in os.environ.get("VERIF_KNOWN", "").split(",") if k]
 
@@ -311,13 +321,19 @@ def dyadic_data(n):
     return np.array([(1.0, -0.5, 2.5, 0.75, -3.0, 0.125, 1.5)[(2 * i + i // 3) % 7] for i in range(n)])
 
 
-def _inputs_for(ctx, mode, mask, ky, kx, signed=True, nsym=None):
+def _inputs_for(ctx, mode, mask, ky, kx, signed=True, nsym=None, ksym=None):
     n = len(positions(mask))
     data, noise, kernel = dyadic_data(n), pow2_noise(n), dyadic_kernel(ky, kx, signed).reshape(-1)
     if mode == "data":
         data = V.real_array("d", (n,))
     elif mode == "kernel":
-        kernel = V.real_array("k", (ky * kx,))
+        sym = V.real_array("k", (ky * kx,))
+        if ksym is None:
+            kernel = sym
+        else:                                   # only the listed entries are solver variables, the others stay concrete dyadic
+            kernel = np.array(kernel, dtype=object)
+            for i in ksym:
+                kernel[i % (ky * kx)] = sym[i % (ky * kx)]
     elif mode == "noise":
         sym = V.real_array("s", (n,))
         noise = np.array(noise, dtype=object)
@@ -348,10 +364,11 @@ def _mask_for(ctx, pattern, ky, kx, extra):
     return make_mask(pattern, ky, kx, extra)
 
 
-def case_wtilde(ctx, pattern, ky, kx, mode, extra=0, signed=True, nsym=None):
+def case_wtilde(ctx, pattern, ky, kx, mode, extra=0, signed=True, nsym=None, ksym=None):
+    stop_if_enough(ctx)
     mask = _mask_for(ctx, pattern, ky, kx, extra)
     ctx.set_case(mask_rows=["".join("#" if m else "." for m in row) for row in mask])
-    inputs = _inputs_for(ctx, mode, mask, ky, kx, signed, nsym)
+    inputs = _inputs_for(ctx, mode, mask, ky, kx, signed, nsym, ksym)
     n = len(positions(mask))
     neg = _neg_overlap_term(mask, _obj(inputs["kernel"], (ky, kx)), _obj(inputs["noise"]).reshape(-1)[:n])
     reg_f = _regions(ky, kx, neg)
@@ -392,6 +409,7 @@ def body_mapping_kernels(inp, n, m, noreg, split=False):
 
 
 def case_mapping_kernels(ctx, n, m, noreg, mode, nsym=1):
+    stop_if_enough(ctx)
     B = V.real_array("B", (n, m))
     d = V.real_array("d", (n,))
     r = V.real_array("r", (m,))
@@ -431,6 +449,7 @@ def body_mirrored(inp, m):
 
 
 def case_mirrored(ctx, m, kind):
+    stop_if_enough(ctx)
     Cm = V.real_array("c", (m, m))
     if kind == "upper":
         for i in range(m):
@@ -605,6 +624,7 @@ def body_consumers(inp, pattern, ky, kx, specs, q, extra=0):
 
 
 def case_consumers(ctx, pattern, ky, kx, specs, mode, q=2, extra=0):
+    stop_if_enough(ctx)
     mask2d, n, lens, idxs, tabs, frames = _tables_setup(pattern, ky, kx, specs, extra)
     inputs = {}
     if mode == "tables":         # table values / w_tilde_data / function columns / reconstruction symbolic, weights concrete
@@ -802,8 +822,8 @@ def body_inversion(inp, ky, kx, specs, solve=False, split=False):
                 continue
             A[tag + ".formalism"] = type(inv).__name__
             E[tag + ".formalism"] = "InversionImagingWTilde" if (wt and not all_funcs) else "InversionImagingMapping"
-            put(A, E, tag + ".operated_mapping_matrix", hx.attempt(lambda: np.array(inv.operated_mapping_matrix)), B)
-            put(A, E, tag + ".data_vector", hx.attempt(lambda: np.array(inv.data_vector)), Dref)
+            put(A, E, tag + ".operated_mapping_matrix", hx.attempt(lambda: np.array(inv.operated_mapping_matrix)), B, split)
+            put(A, E, tag + ".data_vector", hx.attempt(lambda: np.array(inv.data_vector)), Dref, split)
             F = hx.attempt(lambda: np.array(inv.curvature_matrix))       # copy: curvature_reg_matrix adds H in place
             put(A, E, tag + ".curvature_matrix", F, Fref, split)
             if not isinstance(F, hx.Raised) and getattr(F, "shape", None) == (m, m):
@@ -818,16 +838,17 @@ def body_inversion(inp, ky, kx, specs, solve=False, split=False):
             # mapped reconstructed data for an arbitrary reconstruction vector (injected in place of the solver's output)
             inv.__dict__["reconstruction"] = rec
             put(A, E, tag + ".mapped_reconstructed_data", hx.attempt(lambda: np.array(hx.unwrap(inv.mapped_reconstructed_data))),
-                mm(B, rec.reshape(m, 1)).reshape(n))
+                mm(B, rec.reshape(m, 1)).reshape(n), split)
     finally:
         conf.instance["general"]["inversion"]["check_reconstruction"] = old_check
     return A, E
 
 
-def case_inversion(ctx, pattern, ky, kx, specs, mode, extra=0, signed=True, solve=False, nsym=None):
+def case_inversion(ctx, pattern, ky, kx, specs, mode, extra=0, signed=True, solve=False, nsym=None, ksym=None):
+    stop_if_enough(ctx)
     mask = _mask_for(ctx, pattern, ky, kx, extra)
     ctx.set_case(mask_rows=["".join("#" if m else "." for m in row) for row in mask])
-    inputs = _inputs_for(ctx, mode, mask, ky, kx, signed, nsym)
+    inputs = _inputs_for(ctx, mode, mask, ky, kx, signed, nsym, ksym)
     n = len(positions(mask))
     inputs["recon"] = V.real_array("r", (_total_params(mask, specs),))
     neg = _neg_overlap_term(mask, _obj(inputs["kernel"], (ky, kx)), _obj(inputs["noise"]).reshape(-1)[:n])
@@ -838,7 +859,7 @@ def case_inversion(ctx, pattern, ky, kx, specs, mode, extra=0, signed=True, solv
         b = base_key(key)
         if b == "wt.curvature_matrix" or b == "wt.reconstruction":
             return reg_f
-        if b in ("wt.data_vector", "wt.curvature_symmetric"):
+        if b in ("wt.data_vector", "wt.curvature_symmetric", "wt.inversion", "wt.mapped_reconstructed_data", "wt.formalism", "wt.operated_mapping_matrix"):
             return reg_d
         return None
 
@@ -852,20 +873,99 @@ def case_inversion(ctx, pattern, ky, kx, specs, mode, extra=0, signed=True, solv
     known = _K() if (reg_f or reg_d) and not all(sp[0] == "F" for sp in specs) else None
     if known is not None:
         known["_"] = 1
-    hx.run_body(ctx, body_inversion, inputs, {"ky": ky, "kx": kx, "specs": specs, "solve": solve, "split": mode in ("kernel", "noise")},
-                validate_every=4, known=known)
+    tol = None
+    if any(sp[0] == "D" for sp in specs):
+        # barycentric weights are not dyadic: float64 and exact arithmetic differ by rounding, so these cases carry a 1e-9 tolerance
+        # and bounded data / reconstruction values (a relative tolerance is meaningless for unbounded values)
+        tol = 1e-9
+        for arr in (inputs["data"], inputs["recon"]):
+            for e in np.asarray(arr, dtype=object).reshape(-1):
+                if V.is_sym(e):
+                    ctx.assume(z3.And(e.t >= -1000, e.t <= 1000))
+    hx.run_body(ctx, body_inversion, inputs, {"ky": ky, "kx": kx, "specs": specs, "solve": solve, "split": mode in ("kernel", "noise") or tol is not None},
+                validate_every=4, known=known, tol=tol)
 
 
 BODIES = {"case_inversion": body_inversion, "case_wtilde": body_wtilde, "case_mapping_kernels": body_mapping_kernels, "case_mirrored": body_mirrored, "case_consumers": body_consumers}
 
 
 
+KSYM_33 = [[0, 4, 7], [1, 3, 8], [2, 5, 6], [4, 6, 8]]
+
+
 def cases(tier):
+    q = tier == "quick"
     out = []
-    for (ky, kx) in [(3, 3), (1, 3), (3, 1)]:
-        for pattern in ("L3", "block4", "cross5"):
-            for mode in ("data", "kernel", "noise"):
-                out.append(("case_wtilde", {"pattern": pattern, "ky": ky, "kx": kx, "mode": mode}))
+    W, I, Cn = "case_wtilde", "case_inversion", "case_consumers"
+    # ---- level 0: mapping-formalism kernels, mirroring
+    out.append(("case_mapping_kernels", {"n": 4, "m": 3, "noreg": [0, 2], "mode": "all"}))
+    out.append(("case_mapping_kernels", {"n": 6, "m": 4, "noreg": [1], "mode": "all"}))
+    out.append(("case_mapping_kernels", {"n": 5, "m": 3, "noreg": [0, 1, 2], "mode": "noise", "nsym": 2}))
+    out.append(("case_mapping_kernels", {"n": 4, "m": 4, "noreg": [], "mode": "noise", "nsym": 4}))
+    for m in ((4, 5) if q else (4, 5, 7)):
+        for kind in ("upper", "blocks", "any"):
+            out.append(("case_mirrored", {"m": m, "kind": kind}))
+    # ---- level 1: w-tilde tables against the W-tilde specification
+    nonsq = [(1, 3), (3, 1), (3, 5), (5, 3)]
+    out.append((W, {"pattern": "all:2x3" if q else "all:3x3", "ky": 3, "kx": 3, "mode": "data"}, {} if q else {"split": 4}))
+    out.append((W, {"pattern": "all:2x2", "ky": 3, "kx": 3, "mode": "data", "extra": 1}))
+    for pat in ("cross5", "ring8", "block9") + (() if q else ("T6",)):
+        out.append((W, {"pattern": pat, "ky": 3, "kx": 3, "mode": "data"}))
+    out.append((W, {"pattern": "cross5", "ky": 5, "kx": 5, "mode": "data"}))
+    for (ky, kx) in nonsq:
+        out.append((W, {"pattern": "all:2x2", "ky": ky, "kx": kx, "mode": "data"}))
+        out.append((W, {"pattern": "cross5", "ky": ky, "kx": kx, "mode": "data", "extra": 1}))
+        out.append((W, {"pattern": "L3", "ky": ky, "kx": kx, "mode": "kernel", "ksym": [0, ky * kx // 2, ky * kx - 1]}))
+        out.append((W, {"pattern": "block4", "ky": ky, "kx": kx, "mode": "noise", "nsym": 1}))
+    for pat in ("pair", "L3", "diag3"):
+        out.append((W, {"pattern": pat, "ky": 3, "kx": 3, "mode": "kernel"}))                 # the whole kernel symbolic
+    for i, pat in enumerate(("block4", "gap3", "zig4", "cross5") + (() if q else ("ring8", "T6"))):
+        for ks in (KSYM_33[i % 4:i % 4 + 1] if q else KSYM_33):
+            out.append((W, {"pattern": pat, "ky": 3, "kx": 3, "mode": "kernel", "ksym": ks}))
+    out.append((W, {"pattern": "block4", "ky": 3, "kx": 3, "mode": "kernel", "ksym": [0, 8], "extra": 1}))
+    out.append((W, {"pattern": "L3", "ky": 5, "kx": 5, "mode": "kernel", "ksym": [0, 12, 18]}))
+    out.append((W, {"pattern": "L3", "ky": 3, "kx": 3, "mode": "noise"}))
+    out.append((W, {"pattern": "block4", "ky": 3, "kx": 3, "mode": "noise", "nsym": 2}))
+    out.append((W, {"pattern": "cross5", "ky": 3, "kx": 3, "mode": "noise", "nsym": 1 if q else 2}))
+    out.append((W, {"pattern": "block4", "ky": 3, "kx": 3, "mode": "noise", "signed": False}))
+    # ---- level 2: consumers of the tables
+    for (pat, ky, kx, specs) in [("cross5", 3, 3, ["R33s1", "R34s2d"]), ("ring8", 3, 3, ["R33s2d", "R43s1"]), ("block9", 3, 3, ["R33s2e", "R44s2d"]),
+                                 ("cross5", 3, 5, ["R33s2d", "R33s1"]), ("T6", 5, 3, ["R34s2e"])] + \
+            ([] if q else [("block9", 5, 5, ["R44s2d", "R33s1", "R35s2e"]), ("ring8", 1, 3, ["R33s2d", "R34s1"])]):
+        for mode in ("tables", "weights"):
+            out.append((Cn, {"pattern": pat, "ky": ky, "kx": kx, "specs": specs, "mode": mode}))
+    # ---- level 3: aa.Inversion, both formalisms
+    lists = [["R33s1"], ["R33s2d"], ["R33s1", "R34s2d"], ["R34s2d", "R33s1"], ["R33s1", "F2"], ["F2", "R33s1"], ["F1", "F2"],
+             ["R33s1", "F1", "R34s2d"], ["R33s1", "R34s2d", "R43s2e"], ["R43s2e", "R33s1", "R34s2d"], ["R33s1n"], ["F1", "R33s1n"], ["R33s2d", "R33s1n"]]
+    for specs in lists:        # data symbolic, non-negative PSF: D, reconstruction, mapped data decided for every data vector in both formalisms
+        out.append((I, {"pattern": "cross5", "ky": 3, "kx": 3, "specs": specs, "mode": "data", "signed": False, "solve": True}))
+    for specs in (["R33s1", "R34s2d"], ["F2", "R33s2d"]):
+        out.append((I, {"pattern": "zig4", "ky": 3, "kx": 3, "specs": specs, "mode": "data", "signed": True, "solve": True}))
+    out.append((I, {"pattern": "all:2x2", "ky": 3, "kx": 3, "specs": ["R33s2d", "F1"], "mode": "data", "signed": False}))
+    out.append((I, {"pattern": "block4", "ky": 5, "kx": 5, "specs": ["R33s2d", "F1"], "mode": "data", "signed": False, "solve": True}))
+    out.append((I, {"pattern": "ring8", "ky": 3, "kx": 3, "specs": ["D1", "R33s1"], "mode": "data", "signed": False}))
+    out.append((I, {"pattern": "cross5", "ky": 3, "kx": 3, "specs": ["D2"], "mode": "data", "signed": False}))
+    for (ky, kx) in nonsq:
+        out.append((I, {"pattern": "cross5", "ky": ky, "kx": kx, "specs": ["R33s2d", "F1"], "mode": "data", "signed": False, "solve": True}))
+    out.append((I, {"pattern": "L3", "ky": 3, "kx": 3, "specs": ["R33s1"], "mode": "kernel"}))
+    out.append((I, {"pattern": "pair", "ky": 3, "kx": 3, "specs": ["F1", "R33s2d"], "mode": "kernel"}))
+    out.append((I, {"pattern": "block4", "ky": 3, "kx": 3, "specs": ["R33s1", "F1"], "mode": "kernel", "ksym": [0, 4, 7]}))
+    out.append((I, {"pattern": "L3", "ky": 3, "kx": 3, "specs": ["R33s2d", "R33s1n"], "mode": "kernel", "ksym": [1, 3, 8]}))
+    out.append((I, {"pattern": "L3", "ky": 1, "kx": 3, "specs": ["R33s1", "F1"], "mode": "kernel"}))
+    out.append((I, {"pattern": "L3", "ky": 3, "kx": 1, "specs": ["F1", "R33s1"], "mode": "kernel"}))
+    out.append((I, {"pattern": "L3", "ky": 3, "kx": 3, "specs": ["R33s1"], "mode": "noise", "nsym": 1}))
+    out.append((I, {"pattern": "block4", "ky": 3, "kx": 3, "specs": ["R33s1", "F1"], "mode": "noise", "nsym": 2, "signed": False}))
+    if not q:
+        import itertools
+        for perm in itertools.permutations(["R33s2d", "F2", "R34s2e"]):
+            out.append((I, {"pattern": "ring8", "ky": 3, "kx": 3, "specs": list(perm), "mode": "data", "signed": False, "solve": True}))
+        for perm in itertools.permutations(["R33s1", "R34s2d", "R43s2e"]):
+            out.append((I, {"pattern": "block9", "ky": 3, "kx": 3, "specs": list(perm), "mode": "data", "signed": False, "solve": True}))
+        out.append((I, {"pattern": "all:2x3", "ky": 3, "kx": 3, "specs": ["R33s2d", "F1"], "mode": "data", "signed": False}, {"split": 3}))
+        out.append((I, {"pattern": "cross5", "ky": 3, "kx": 3, "specs": ["R33s1", "R34s2d"], "mode": "kernel", "ksym": [0, 4, 7]}))
+        out.append((I, {"pattern": "block4", "ky": 3, "kx": 3, "specs": ["R33s1", "R34s2d"], "mode": "noise", "nsym": 1}))
+        out.append((I, {"pattern": "T6", "ky": 3, "kx": 5, "specs": ["R33s2d", "F1", "R34s1"], "mode": "data", "signed": False, "solve": True}))
+        out.append((I, {"pattern": "ring8", "ky": 3, "kx": 3, "specs": ["D2", "F1", "R33s2d"], "mode": "data", "signed": False}))
     return out
 
 
@@ -876,8 +976,8 @@ def replay(cand):
 def _strip(cand):
     c = dict(cand)
     kw = dict(c["case_kwargs"])
-    drop = {"case_wtilde": ("pattern", "mode", "extra", "signed", "nsym"), "case_mapping_kernels": ("mode", "nsym"), "case_mirrored": ("kind",),
-            "case_consumers": ("mode",), "case_inversion": ("pattern", "mode", "extra", "signed", "nsym")}.get(c["case_fn"], ())
+    drop = {"case_wtilde": ("pattern", "mode", "extra", "signed", "nsym", "ksym"), "case_mapping_kernels": ("mode", "nsym"), "case_mirrored": ("kind",),
+            "case_consumers": ("mode",), "case_inversion": ("pattern", "mode", "extra", "signed", "nsym", "ksym")}.get(c["case_fn"], ())
     for k in drop:
         kw.pop(k, None)
     c["case_kwargs"] = kw
